@@ -21,6 +21,7 @@ func init() {
 		Level: "model_checking",
 		Rule: "for each of 12 body shapes (a yielded expression that would raise / would consume a shared source on the stop step; guarded yield then recur; recur then guarded yield; two yields; no recur; keyword arguments; body reading a reassigned outer variable; unguarded infinite; nil first yield; no declared parameters with \\ resp. \\1) the complete history tree of depth <=5 (thorough 6) over the operations " +
 			"{iK := gen.new(0|2), iK := iJ.new(1), iK := iJ (alias), iJ.next, iJ.A, iJ@{..}, iJ$(0)+ (thorough), lim := 1|5} on <=3 iterator variables; states = model states reached, transitions = operations; " +
+			"freshness (no model): for 7 literals incl. ones that keep progress in body-local assignments or threaded keyword arguments, every history of <=3 (thorough 4) operations over 9 (next, A, chains, _iter copy, new, advancing the literal itself) followed by b := a.new(args) and c := gen.new(args): both must yield exactly what a first iterator yielded; " +
 			"every path is one program on the real interpreter and every observation along it (value / StopIterErr / collected list) is compared with the model; A and chains are generated only where the model proves the iteration finite; " +
 			"non-trivial = path touching >=2 iterator objects or containing a chain/A; distinct = distinct operation sequence",
 		Assumptions: []string{
@@ -402,7 +403,88 @@ func judge(c *core.Ctx, t tcase, o panrun.Obs) {
 		Repro: "zz := {||\n" + src + "\n}\nzz().p\n"})
 }
 
+// ---------------------------------------------------------------- freshness of new, whatever the history of its receiver
+
+// freshGens: iterator literals incl. ones that keep progress outside their parameters (a body-local assignment,
+// a keyword argument threaded through recur); no model is needed: what `x.new(args)` yields must not depend on
+// what happened to x (or to any other iterator of the family) before.
+var freshGens = []struct{ name, gen, args string }{
+	{"body-local-counter", "n := 0\ngen := <{yield (n := n + 1) if n < 3}>", ""},
+	{"body-local-after-yield", "gen := <{|i| yield i if i < 3; i := i + 1}>", "0"},
+	{"kwarg-threaded", "gen := <{|i, acc: 0| yield i + acc if i < 3; recur(i + 1, acc: acc + 10)}>", "0"},
+	{"param-and-local", "gen := <{|i| k := (k2 || 0); yield i + k if i < 3; k2 := k + 100; recur(i + 1)}>", "0"},
+	{"yield-then-recur", "gen := <{|i| yield i if i < 3; recur(i + 1)}>", "0"},
+	{"implicit-args", "gen := <{yield \\ if \\ < 3; recur(\\ + 1)}>", "0"},
+	{"two-yields-nil-first", "gen := <{|i| yield [nil, i][i % 2] if i < 4; yield 99; recur(i + 1); 77}>", "0"},
+}
+
+var freshOps = []string{"a.next", "a.A", "a@{|x| x}", "a$(0){|s, x| x}", "a2 := a._iter", "a2.next", "a3 := a.new(%s)", "a3.next", "gen.next"}
+
+type fcase struct {
+	Mode string   `json:"mode"` // "fresh"
+	Gen  int      `json:"gen"`
+	Hist []string `json:"hist"`
+}
+
+func (f fcase) src() string {
+	g := freshGens[f.Gen]
+	obs := func(v string) string {
+		return "[" + v + ".try.next.A.S, " + v + ".try.next.A.S, " + v + ".try.next.A.S, " + v + ".try.next.A.S, " + v + ".try.next.A.S]"
+	}
+	var sb strings.Builder
+	sb.WriteString("k2 := nil\n" + g.gen + "\n")
+	sb.WriteString("base := gen.new(" + g.args + ")\nr0 := " + obs("base") + "\n")
+	sb.WriteString("a := gen.new(" + g.args + ")\na2 := a\na3 := a\n")
+	for _, h := range f.Hist {
+		sb.WriteString("nil.try.{|u| " + strings.Replace(h, "%s", g.args, 1) + "}\n")
+	}
+	sb.WriteString("b := a.new(" + g.args + ")\nr1 := " + obs("b") + "\n")
+	sb.WriteString("c := gen.new(" + g.args + ")\nr2 := " + obs("c") + "\n")
+	sb.WriteString("[r0 == r1, r0 == r2, r0, r1, r2]")
+	return sb.String()
+}
+
+func judgeFresh(c *core.Ctx, f fcase, o panrun.Obs) {
+	c.Validated(1)
+	c.Nontrivial(1)
+	c.Transition(len(f.Hist) + 3)
+	if o.Kind == "syntax" {
+		c.HarnessError("freshness program does not parse: %s: %s", f.src(), o.ErrMsg)
+		return
+	}
+	c.Outcome("fresh:" + o.Kind)
+	if o.Kind == "value" && strings.HasPrefix(o.Repr, "[true, true, ") {
+		return
+	}
+	class := "new-from-used-iterator"
+	if o.Kind == "value" && strings.HasPrefix(o.Repr, "[true, false") {
+		class = "new-from-literal-after-use"
+	}
+	c.Violation(core.Violation{Key: "fresh/" + freshGens[f.Gen].name + "/" + class, Case: core.JSON(f), Desc: strings.ReplaceAll(f.src(), "\n", "; "),
+		Expected: "[true, true, ...]: an iterator made by new yields the same whatever happened to its receiver before", Observed: o.Short(), Repro: "zz := {||\n" + f.src() + "\n}\nzz().p\n"})
+}
+
+func runFresh(c *core.Ctx) {
+	depth := c.Pick(3, 4)
+	tk.Batched(c, 300, "", func(emit func(fcase)) {
+		for gi := range freshGens {
+			var rec func(h []string)
+			rec = func(h []string) {
+				emit(fcase{Mode: "fresh", Gen: gi, Hist: append([]string{}, h...)})
+				if len(h) == depth {
+					return
+				}
+				for _, o := range freshOps {
+					rec(append(h, o))
+				}
+			}
+			rec(nil)
+		}
+	}, func(f fcase) string { return f.src() }, func(f fcase, o panrun.Obs) { judgeFresh(c, f, o) })
+}
+
 func run(c *core.Ctx) {
+	runFresh(c)
 	depth := c.Pick(5, 6)
 	c.Note("depth_after_first_new", depth)
 	states := map[string]bool{}
@@ -425,6 +507,13 @@ func run(c *core.Ctx) {
 }
 
 func replay(c *core.Ctx, raw json.RawMessage) {
+	var f fcase
+	if json.Unmarshal(raw, &f) == nil && f.Mode == "fresh" {
+		obs := c.R().Thunks("", []string{f.src()}, "")
+		c.Eval(1)
+		judgeFresh(c, f, obs[0])
+		return
+	}
 	var t tcase
 	if err := json.Unmarshal(raw, &t); err != nil {
 		c.HarnessError("bad case: %v", err)
